@@ -689,7 +689,9 @@ def rules(rep, facts):
     from .rules_events import r_verdicts, r_verdict_space
     r_verdicts(rep, facts)
     if facts.config == 'default':
-        r_verdict_space(rep, facts, length=4 if rep.tier == 'thorough' else 3, alphabet=14)
+        import os as _os
+        # (VERIF_FAST: the matrix runs of selftest/catch_matrix.py, hundreds of trees side by side, use the two-statement space)
+        r_verdict_space(rep, facts, length=4 if rep.tier == 'thorough' else 2 if _os.environ.get('VERIF_FAST') else 3, alphabet=14)
     # R3 reads the guards of the parser state off their syntactic shape (one `if` per walk, a guarded match arm, an assert before the swap).  Where the state
     # is evaluated as a whole — R10 and R11: every small document gets the verdict and the tree an independent decoder gives — the question R3 asks is decided
     # by behaviour, and a guard written another way (a helper function, a match guard, `try_fold`) is not a finding.
